@@ -1,5 +1,5 @@
 """Developer helper: verify the contracts of one module and print a table."""
-import sys, importlib, time
+import sys, importlib, time, os
 from .contract import ALL_CONTRACTS, verify_function
 from .repo import RepoIndex
 
@@ -15,7 +15,7 @@ def main():
         if hasattr(c, 'verify'):
             r = c.verify(repo)
         else:
-            r = verify_function(c, repo)
+            r = verify_function(c, repo, tier=os.environ.get('PYVC_TIER', 'quick'))
         print(f'== {c.name()}  status={r.status} paths={r.paths} vcs={len(r.vcs)} t={r.time:.2f}s {r.detail}')
         for vc in r.vcs:
             flag = {'discharged': 'ok ', 'refuted': 'REFUTED', 'unknown': 'unknown', None: 'none'}[vc.status]
